@@ -95,8 +95,8 @@ CHECKS = {
             "DTensor.from_local with explicit global shape/stride stands in for fully_shard / distribute_tensor; simulator assumptions of C06.",
             "5, 6/C08"),
     "C18": ("exploration",
-            "differential compiled-vs-eager over Hypothesis-generated configurations and histories (eager and aot_eager backends, static/dynamic/auto shape modes), bitwise on parameters and all state after every step, with a dynamo-counter guard against vacuity",
-            "Both optimizers run the same history; any bitwise difference in parameters or state, or a difference in raising, is a violation. Cases in which torch's AOTAutograd rejects the graph (aliased mutated inputs under dynamic shapes) are excluded and counted.",
+            "differential compiled-vs-eager over Hypothesis-generated configurations and histories (eager and aot_eager backends, static/dynamic/auto shape modes and a DDP-distributor stream on the simulator) on parameters and all state after every step (integer state bitwise, floating point within 64 ulp x conditioning), with a dynamo-counter guard against vacuity",
+            "Both optimizers run the same history; any difference in parameters or state beyond the stated re-rounding tolerance (torch.compile rewrites add_(alpha=) and decomposes fused in-place ops: single-ulp differences exist on the unchanged tree), or a difference in raising, is a violation. Cases in which torch's AOTAutograd rejects the graph (aliased mutated inputs under dynamic shapes) are excluded and counted.",
             "torch 2.5.1 CPU; inductor is outside the property's premise; dynamo counters trusted for the 'really compiled' guard.",
             "6/C18"),
 }
